@@ -64,6 +64,7 @@ class LogRun(object):
         self.huge = False
         self.fine_clock = False
         self.nclock = 0
+        self.io_fault = False
 
     def peer_dir(self):
         return os.path.basename(os.path.dirname(self.msgdir))
@@ -120,10 +121,25 @@ class LogRun(object):
                 h.on_update_error(p, ts, {'attr': {}, 'nlri': [], 'withdraw': [], 'hex': "b'\\x00'"})
 
     def event(self, kind, rot):
+        self.nevent = getattr(self, 'nevent', 0) + 1
+        fault = self.io_fault and self.nevent in (2, 3, 5) and not rot      # (a rotating event would skip its rotation: the model has no such step)
+        real_fsync = os.fsync
+        if fault:
+            # a transient I/O error of the disk while this one event is written (the data reached the file, fsync reports EIO):
+            # the error may surface in the callback, the log on disk stays what the property says
+            def failing(fd):
+                os.fsync = real_fsync
+                raise OSError(5, 'Input/output error')
+            os.fsync = failing
         try:
             self._call(kind, rot)
+        except OSError:
+            if not fault:
+                self.exc += 1
         except Exception:
             self.exc += 1
+        finally:
+            os.fsync = real_fsync
 
     def sizes(self):
         out = {}
@@ -232,6 +248,7 @@ def replay_walk(g, walk, tid, frac):
             os.makedirs(os.path.join(sub, r.peer_dir()))
         elif tid % 6 == 5:
             os.makedirs(os.path.join(sub, r.peer_dir(), 'msg'))
+        r.io_fault = (tid % 9 == 4)
         r.fine_clock = (tid % 5 == 2)
         if r.fine_clock:
             W.now = 0.5
